@@ -4,7 +4,9 @@ import (
 	"fmt"
 	"math"
 	"math/rand"
+	"runtime"
 	"sort"
+	"sync"
 
 	neatmath "github.com/yaricom/goNEAT/v4/neat/math"
 	"github.com/yaricom/goNEAT/v4/neat/network"
@@ -118,7 +120,7 @@ func init() {
 			return 1 + len(refActs)*c18Batches + 8
 		},
 		Run:      runC18,
-		Required: []string{"registry.extensions", "registry.codes", "scalar.evaluations", "module.evaluations", "module.all_negative_below_minint64", "scalar.at_breakpoint"},
+		Required: []string{"scalar.concurrent_evaluations", "registry.extensions", "registry.codes", "scalar.evaluations", "module.evaluations", "module.all_negative_below_minint64", "scalar.at_breakpoint"},
 	})
 }
 
@@ -167,6 +169,13 @@ func runC18(c *Ctx, idx int) {
 		c18Registry(c)
 		if !c.Violated() {
 			c18RegistryExtension(c)
+		}
+		if !c.Violated() {
+			// what was registered on factories of their own must not have reached the global one
+			c18Registry(c)
+		}
+		if !c.Violated() {
+			c18Concurrent(c)
 		}
 		return
 	}
@@ -506,6 +515,43 @@ func c18RegistryExtension(c *Ctx) {
 			}
 		}
 		if !verify("the last registration") {
+			return
+		}
+	}
+}
+
+// c18Concurrent: several goroutines activate different types through the shared global factory at once (the parallel
+// evaluators of the examples do): every call still returns the value of its own function
+func c18Concurrent(c *Ctx) {
+	factory := neatmath.NodeActivators
+	types := []neatmath.NodeActivationType{neatmath.SigmoidPlainActivation, neatmath.TanhActivation, neatmath.GaussianActivation, neatmath.LinearActivation,
+		neatmath.SineActivation, neatmath.SigmoidBipolarActivation, neatmath.LinearAbsActivation, neatmath.StepActivation}
+	prev := runtime.GOMAXPROCS(8)
+	defer runtime.GOMAXPROCS(prev)
+	var wg sync.WaitGroup
+	bad := make([]string, len(types))
+	for gi, t := range types {
+		wg.Add(1)
+		go func(gi int, t neatmath.NodeActivationType) {
+			defer wg.Done()
+			x := 0.1 + float64(gi)*0.37
+			for k := 0; k < 40000; k++ {
+				xx := x + float64(k%97)*0.01
+				y, err := factory.ActivateByType(xx, nil, t)
+				w := refActivation(t, xx)
+				if err != nil || math.Abs(y-w) > 1e-12*math.Max(math.Abs(w), math.Abs(y))+1e-18 {
+					bad[gi] = fmt.Sprintf("type %d at %v: got %v (%v), the closed form gives %v", t, xx, y, err, w)
+					return
+				}
+			}
+		}(gi, t)
+	}
+	wg.Wait()
+	c.Eval(len(types) * 40000)
+	c.Count("scalar.concurrent_evaluations", len(types)*40000)
+	for _, b := range bad {
+		if b != "" {
+			c.Violate("concurrent-value", map[string]interface{}{"key": "concurrent"}, "while %d goroutines activated different types through the shared factory: %s", len(types), b)
 			return
 		}
 	}
